@@ -26,10 +26,7 @@ package main
 //	           | 4 a panic elsewhere | 5 the match oracle of the case is not what isMatch answers now
 
 import (
-	"bytes"
 	"fmt"
-	"os"
-	"path/filepath"
 	"regexp"
 	"runtime"
 	"sync"
@@ -53,21 +50,9 @@ import (
 
 const pjWhich = 6
 
-const pjStopFinding = "C15-stop-busy-action-other-stream"
-
-// knownListed: a family that shows a genuine, not yet recorded defect is emitted only once the coordinator has listed
-// the proposed finding id in /verif/known_findings.json (the harness binary lives in /verif/build)
-func knownListed(id string) bool {
-	if os.Getenv("C15_ASSUME_LISTED") != "" { // development aid
-		return true
-	}
-	exe, _ := os.Executable()
-	kf, err := os.ReadFile(filepath.Join(filepath.Dir(filepath.Dir(exe)), "known_findings.json"))
-	return err == nil && bytes.Contains(kf, []byte(id))
-}
-
-// the minimal witness: stream 0 gets the start line S1 (held), 20 ms later stream 1 gets the continuation line C1 and
-// the plain line O1; one processor; Stop() - C1 is appended to stream 0's run, which O1 then flushes: "S1C1" reaches the output
+// the minimal witness of the former finding C15-stop-busy-action-other-stream (repaired by /repo 5c4c757): stream 0 gets
+// the start line S1 (held), 20 ms later stream 1 gets the continuation line C1 and the plain line O1; one processor;
+// Stop().  Before the repair C1 was appended to stream 0's run, which O1 then flushed: "S1C1" reached the output
 func pjStopWitness() hx.Sx {
 	return hx.MustParse("((0 (0) (#5e53 #5e43)) (4 0 0) (1 8 60000 2) ((0 1 0 (2 1 #22533122 #5331 (1) (0)) #) (1 1 20 (2 1 #22433122 #4331 (0) (1)) #) (1 1 0 (2 1 #224f3122 #4f31 (0) (0)) #)))")
 }
@@ -478,7 +463,8 @@ func c15GenPipeJoin(c *hmain.Ctx, r *hx.Rng) {
 	mvals := []string{``, `,"m":"x"`, `,"m":"x"`, `,"m":"yz"`, `,"m":"xq"`, `,"m":"q"`, `,"m":"x","n":"1"`, `,"m":"x","n":"12"`, `,"n":"1"`, `,"n":"21"`, `,"m":"q","n":"2"`, `,"m":"yzz","n":"1"`}
 
 	// stop: 0 the run ends quiescent; 1 Stop() while runs are held, more processors than streams; 2 Stop() with one
-	// processor blocked behind a held run and events of other streams still waiting (pjStopFinding)
+	// processor blocked behind a held run and events of other streams still waiting (former finding
+	// C15-stop-busy-action-other-stream, repaired by /repo 5c4c757)
 	gen := func(stream string, stopMode int) *pjJob {
 		stop := stopMode != 0
 		useTpl := r.Chance(1, 4)
@@ -598,15 +584,14 @@ func c15GenPipeJoin(c *hmain.Ctx, r *hx.Rng) {
 	for i := 0; i < 30*c.Scale; i++ {
 		jobs = append(jobs, gen("pipe-join-stop", 1))
 	}
-	// Stop() while the only processor waits for the next event of a held run and other streams have events waiting: the
-	// processor leaves the held stream on the unlock event with its action still busy, takes the next charged stream and
-	// hands that stream's events to the busy action: lines of two streams end up in one event
-	// (notes/finding-C15-stop-busy-action-other-stream.md).  Emitted only once the finding is listed.
-	if knownListed(pjStopFinding) {
-		jobs = append(jobs, &pjJob{stream: "pipe-join-stop-pending", cs: pjStopWitness(), stop: true, multi: true})
-		for i := 0; i < 12*c.Scale; i++ {
-			jobs = append(jobs, gen("pipe-join-stop-pending", 2))
-		}
+	// Stop() while the only processor waits for the next event of a held run and other streams have events waiting.  Before
+	// /repo 5c4c757 the processor left the held stream on the unlock event with its action still busy, took the next
+	// charged stream and handed that stream's events to the busy action: lines of two streams ended up in one event
+	// (notes/finding-C15-stop-busy-action-other-stream.md).  Now the processor returns on the unlock event; the family is
+	// always emitted and judged like every other pipe-join case (monitor 2: a busy instance sees only its stream).
+	jobs = append(jobs, &pjJob{stream: "pipe-join-stop-pending", cs: pjStopWitness(), stop: true, multi: true})
+	for i := 0; i < 12*c.Scale; i++ {
+		jobs = append(jobs, gen("pipe-join-stop-pending", 2))
 	}
 	sem := make(chan struct{}, 120)
 	var wg sync.WaitGroup
